@@ -1,8 +1,9 @@
 // C19 — publishing yields a closed, confined, deterministic set of files.
-//  names:     documents (incl. hostile pointers and colliding keys) x all 64 page-group subsets x 3 visibilities: plain unique names, closed links, DirectoryFileWriter confinement
-//  schedules: the real, instrumented Publisher.Publish under the vsched scheduler: every schedule with <=d deviations, x jobs, compared with the sequential reference; race monitor
-//  histories: every sequence of <=3 publishes in one process must equal the document published alone in a fresh process
-//  faults:    the writer fails at the k-th file for every k, x jobs (and x schedules on the tiny document)
+//
+//	names:     documents (incl. hostile pointers and colliding keys) x all 64 page-group subsets x 3 visibilities: plain unique names, closed links, DirectoryFileWriter confinement
+//	schedules: the real, instrumented Publisher.Publish under the vsched scheduler: every schedule with <=d deviations, x jobs, compared with the sequential reference; race monitor
+//	histories: every sequence of <=3 publishes in one process must equal the document published alone in a fresh process
+//	faults:    the writer fails at the k-th file for every k, x jobs (and x schedules on the tiny document)
 package main
 
 import (
@@ -51,6 +52,10 @@ var docs = map[string]string{
 	"D3": dead("I1", "John /Smith/", "1 Jan 1800", "Individuals A", "2 SOUR @../x@") + dead("I2", "John! /Smith?/", "2 Feb 1802", "John Smith", "2 SOUR @a/b@") +
 		dead("I3", "Places", "3 Mar 1803", "places", "2 SOUR @places@") + dead("I4", "Num /1st/", "4 Apr 1804", "", "2 SOUR @x y@") + dead("I5", "Hash /#tag/", "5 May 1805", "") + dead("I6", "Acc /Éclair/", "6 Jun 1806", "") +
 		"0 @../x@ SOUR\n1 TITL Dotdot\n0 @a/b@ SOUR\n1 TITL Slash\n0 @places@ SOUR\n1 TITL Places\n0 @x y@ SOUR\n1 TITL Space\n0 @.@ SOUR\n1 TITL Dot\n0 @..@ SOUR\n1 TITL DotDot\n",
+	// hostile places and names: path characters in places and given names, dots, non-ASCII initials
+	"D5": dead("I1", "Élise /Éluard/", "1 Jan 1800", "../escaped") + dead("I2", "Ōta /Ōta/", "2 Feb 1802", "N/A, Nowhere") + dead("I3", "Иван /Жуков/", "3 Mar 1803", "Paris/Île-de-France") +
+		dead("I4", ".. /../", "4 Apr 1804", "a\\b") + dead("I5", ". /./", "5 May 1805", ".") + dead("I6", "Dot.Name /St. Ives/", "6 Jun 1806", "..") + dead("I7", "C:\\Temp /x:y/", "7 Jul 1807", "C:\\Temp, x?y=z&w") +
+		dead("I8", "Per%2Fcent /%2e%2e/", "8 Aug 1808", "%2e%2e%2fup"),
 }
 
 func decode(name string) *gedcom.Document {
@@ -121,16 +126,16 @@ func diffSites(a, b site) string {
 }
 
 type kase struct {
-	Part    string       `json:"part"`
-	Doc     string       `json:"doc,omitempty"`
-	Seq     []string     `json:"sequence,omitempty"`
-	Mask    int          `json:"mask"`
-	Living  string       `json:"living"`
-	Jobs    int          `json:"jobs"`
-	FailAt  int          `json:"fail_at,omitempty"`
-	Devs    []vsched.Dev `json:"schedule,omitempty"`
-	MapRev  bool         `json:"map_reverse,omitempty"`
-	Bound   int          `json:"bound,omitempty"`
+	Part   string       `json:"part"`
+	Doc    string       `json:"doc,omitempty"`
+	Seq    []string     `json:"sequence,omitempty"`
+	Mask   int          `json:"mask"`
+	Living string       `json:"living"`
+	Jobs   int          `json:"jobs"`
+	FailAt int          `json:"fail_at,omitempty"`
+	Devs   []vsched.Dev `json:"schedule,omitempty"`
+	MapRev bool         `json:"map_reverse,omitempty"`
+	Bound  int          `json:"bound,omitempty"`
 }
 
 type finding struct{ sig, what string }
@@ -451,7 +456,7 @@ func bound(tier string) int {
 func units(tier string) []kase {
 	var out []kase
 	// names and closure
-	for _, d := range []string{"D1", "D2", "D3", "empty"} {
+	for _, d := range []string{"D1", "D2", "D3", "D5", "empty"} {
 		for _, living := range []string{"show", "hide", "placeholder"} {
 			for mask := 0; mask < 64; mask++ {
 				out = append(out, kase{Part: "names", Doc: d, Mask: mask, Living: living, Jobs: 1})
@@ -667,7 +672,9 @@ func main() {
 		Run:        run,
 		Replay:     replay,
 		MaxWorkers: 16,
-		Required:   func(string) []string { return []string{"part:names", "part:schedules", "part:histories", "part:faults", "transitions", "accesses-monitored"} },
+		Required: func(string) []string {
+			return []string{"part:names", "part:schedules", "part:histories", "part:faults", "transitions", "accesses-monitored"}
+		},
 		Deadline: func(tier string) time.Duration {
 			if tier == "thorough" {
 				return 120 * time.Minute
